@@ -92,6 +92,17 @@ def check(col: Collector, tier: str):
     sh = shape(parts(vu.node, tpl[0].args[0])) if len(tpl) == 1 else []
     oku = sh == ["(", "{_known_unary_operators[type(node.op)]}", "(", "{operand.as_cpp()}", "))"]
     col.add("C13.R1", vu.short, "unary-template", oku, f"unary expression template {sh} must be (op(operand))", vu.loc)
+    # the result of a unary operator has the operand's numeric type: for every type name of the arithmetic type table the type expression
+    # must come out as that same type for float and double (evaluated over the finite table when a helper computes it)
+    if len(tpl) == 1:
+        tyx = resolve_name(vu.node, tpl[0].args[2] if len(tpl[0].args) > 2 else kwarg(tpl[0], "cpp_type"))
+        verdict, why_u = _unary_type_preserved(repo, vu, tyx)
+        if verdict is None:
+            col.defer(f"visit_UnaryOp types its result by `{src(tyx)[:60]}`, which cannot be evaluated over the type table ({why_u}): C13.R1 unary-result-type not decided")
+        else:
+            col.add("C13.R1", vu.short, "unary-result-keeps-the-operand's-floating-type", verdict,
+                    f"-x and +x of a float/double operand must be typed float/double ({why_u}): typed int, the value is truncated in every column, "
+                    "accumulator and further arithmetic", vu.loc)
     lrb = {k: src(resolve_name(vb.node, ast.Name(id=k, ctx=ast.Load()))) for k in ("left", "right")}
     col.add("C13.R1", vb.short, "operands-in-order", "node.left" in lrb["left"] and "node.right" in lrb["right"], f"{lrb}", vb.loc)
 
@@ -212,7 +223,12 @@ def check(col: Collector, tier: str):
     inc = any(isinstance(c, ast.Call) and call_name(c) == "add_include" and const_str(c.args[0]) == "cmath" for c in ast.walk(vs.node))
     col.add("C13.R7", vs.short, "power-includes-cmath", inc, "", vs.loc)
 
+    from sa.props._tr import check_no_fast_math, check_backend_visitors_override_only_abstract
+    check_no_fast_math(col, "C13.R13")
+    check_backend_visitors_override_only_abstract(col, "C13.R13", repo)
     from sa.props._tr import import_obligations
+    import_obligations(col, "C13.R12", "c03", lambda o: o.detail == "branch-binds-name-k-to-variable-k",
+                       "a branch booked with an explicit leaf description stores the value in that type, whatever the C++ variable's type is")
     import_obligations(col, "C13.R12", "c10", lambda o: o.rule == "C10.R3" and o.detail in ("add-and-lookup-agree",),
                        "the cast of int/int division and the result's column type are chosen from the method's recorded return type: the LAST declaration must win")
     # ------------------------------------------------------------ R11 a conditional yields its arm's value (cursor discipline shared with C04)
@@ -234,3 +250,69 @@ def check(col: Collector, tier: str):
         [n for n in ast.walk(vi.node) if isinstance(n, ast.Assign) and any("_cpp_type" in src(t) for t in n.targets)]
     col.add("C13.R8", vi.short, "never-retyped-from-its-arms", not ut,
             "a conditional typed from its arms becomes int inside an Aggregate update (acc if c else acc + 1) and truncates the running float sum", vi.loc)
+
+
+def _unary_type_preserved(repo: Repo, vu, tyx):
+    """(True/False/None, explanation): does the type expression of visit_UnaryOp keep float and double as they are?"""
+    from sa.core.finite_eval import Unknown, ev, literal_tables
+    from sa.core.paths import enumerate_paths
+    sx = src(tyx)
+    if sx == "operand.cpp_type()":
+        return True, "the operand's own type"
+    # <helper>(operand.cpp_type()) possibly under a condition on the operator
+    calls = [c for c in ast.walk(tyx) if isinstance(c, ast.Call)] if not isinstance(tyx, ast.Call) else [tyx]
+    calls = [c for c in calls if len(c.args) == 1 and src(resolve_name(vu.node, c.args[0])) == "operand.cpp_type()"]
+    # the local may be re-bound: r_type = operand.cpp_type(); if ...: r_type = helper(r_type)
+    if not calls and isinstance(tyx, ast.Name):
+        for n in walk_no_nested(vu.node):
+            if isinstance(n, ast.Assign) and src(n.targets[0]) == tyx.id and isinstance(n.value, ast.Call) and len(n.value.args) == 1:
+                calls.append(n.value)
+    if not calls:
+        ds = defs_of(vu.node, tyx.id) if isinstance(tyx, ast.Name) else []
+        if ds and all(src(d) == "operand.cpp_type()" for d in ds):
+            return True, "the operand's own type"
+        return None, "no helper call found"
+    helpers = repo.resolve_call(vu, calls[0])
+    if len(helpers) != 1:
+        return None, "helper not resolved"
+    h = helpers[0]
+    prm = h.node.args.args[0].arg
+    tables = literal_tables(h.module.tree)
+    table = tables.get("_type_priority")
+    if not isinstance(table, dict):
+        return None, "no literal type table in the helper's module"
+    results = {}
+    for tname in table:
+        env = {f"{prm}.type": tname}
+        got = None
+        for p_ in enumerate_paths(h.node):
+            if p_.status == "raise":
+                continue
+            try:
+                local = dict(env)
+                consistent = True
+                for e in p_.events:
+                    if e.kind == "assign" and isinstance(e.node, ast.Assign) and isinstance(e.node.targets[0], ast.Name):
+                        try:
+                            local[e.node.targets[0].id] = ev(e.node.value, local, tables)
+                        except Unknown:
+                            pass
+                    if e.kind == "cond":
+                        if bool(ev(e.node, local, tables)) != bool(e.taken):
+                            consistent = False
+                            break
+                if not consistent:
+                    continue
+                rets = [e.node for e in p_.events if e.kind == "return"]
+                rv = rets[-1].value if rets else None
+                if isinstance(rv, ast.Name) and rv.id == prm:
+                    got = tname
+                elif isinstance(rv, ast.Call) and call_name(rv) == "terminal" and rv.args and isinstance(rv.args[0], ast.Constant):
+                    got = rv.args[0].value
+                else:
+                    return None, f"return value {src(rv)[:40] if rv is not None else None} not understood"
+            except Unknown as u:
+                return None, f"cannot evaluate ({u})"
+        results[tname] = got
+    bad = {t: r for t, r in results.items() if t in ("float", "double") and r != t}
+    return (not bad), f"{h.short} maps {results}"
